@@ -198,6 +198,10 @@ class Interp:
         if f.qualname in self.overrides:
             return self.overrides[f.qualname](self, args, dict(kwargs))
         self.called.add(f.qualname)
+        unknown = [d for d in f.decorators if d not in ("property", "staticmethod", "classmethod", "abstractmethod")]
+        if unknown:
+            # a decorator may change what a call does (caching, wrapping): never silently dropped by the extraction
+            raise Unsupported(f"decorator(s) {unknown} on {f.qualname}")
         frame = Frame(f, f.module, cls=f.cls)
         kwargs = dict(kwargs)
         self.bind(f.node, args, kwargs, frame, Frame(f, f.module))
